@@ -5,6 +5,7 @@ import (
 	"fmt"
 	"os"
 	"path/filepath"
+	"regexp"
 	"sort"
 
 	"verif/tools/internal/absint"
@@ -23,7 +24,27 @@ type residualEntry struct {
 	Func     string `json:"function"`
 	Expr     string `json:"construct"`
 	Reason   string `json:"reason"`
-	used     bool
+	// Alt: the obligation stated over the abstract objects ("cannot show 0 ≤
+	// tokenVec[0].len < INPUT"), with symbol numbers and allocation prefixes
+	// removed — the same obligation is recognised when the expression that states
+	// it in the source changes shape (a token handed to a helper as a parameter)
+	Alt  string `json:"alt,omitempty"`
+	used bool
+}
+
+var (
+	reSymNo  = regexp.MustCompile(`#\d+`)
+	reAlloc  = regexp.MustCompile(`A\d+:t\d+\.`)
+	rePhiReg = regexp.MustCompile(`(φ\w+)\.t\d+`)
+)
+
+// normalizeWhy strips what is particular to one analysis run or one shape of the
+// source from an obligation's statement.
+func normalizeWhy(w string) string {
+	w = reSymNo.ReplaceAllString(w, "")
+	w = reAlloc.ReplaceAllString(w, "")
+	w = rePhiReg.ReplaceAllString(w, "$1")
+	return w
 }
 
 func loadResiduals(c *Ctx, r *core.Result) []*residualEntry {
@@ -91,7 +112,11 @@ func emitObs(r *core.Result, obs []*absint.Ob, residuals []*residualEntry, prop 
 		}
 		matched := false
 		for _, re := range residuals {
-			if re.Rule == o.Rule && re.Expr == o.Expr && (re.Func == o.Fn || (residualScope != nil && residualScope(re.Func, o.Fn))) {
+			sameOb := re.Expr == o.Expr || (re.Alt != "" && re.Alt == normalizeWhy(o.Why))
+			if re.Rule == o.Rule && sameOb && (re.Func == o.Fn || (residualScope != nil && residualScope(re.Func, o.Fn))) {
+				if os.Getenv("VERIF_DBGRESID") != "" {
+					fmt.Fprintf(os.Stderr, "RESID %s | %s | %s | alt=%q\n", o.Rule, o.Fn, o.Expr, normalizeWhy(o.Why))
+				}
 				re.used = true
 				matched = true
 				r.Residual(o.Rule, o.Fn, o.Expr, o.Pos, re.Reason)
